@@ -155,6 +155,8 @@ def run(rep, facts, tier):
         check_compress_funnel(rep, cfg)
         check_sign(rep, cfg)
         isqrt_zero_cases(rep, cfg)
+        from . import groupops
+        groupops.check_select(rep, cfg)     # a selected element must still be a point: encode reads all four coordinates
         # "re-encoding a decoded string reproduces exactly those bytes" needs the decoder to accept canonical strings only
         from . import c02
         c02.canon_parse(rep, cfg)
@@ -162,6 +164,11 @@ def run(rep, facts, tier):
             c02.from_bigint_rule(rep, cfg)
         from . import c17
         c17.curve_constants(rep, facts[name], name)     # "every element obtainable from constants": generator / identity are valid and = decode(8)
+    # every decoding entry point (TryFrom forms, stream deserialisers) must hand the decoder exactly the 32 input bytes: C02's FUNNEL instances
+    from .common import import_rules
+    nf = import_rules(rep, c02, {k: v for k, v in facts.items() if k in ("A", "M")}, tier, "ENTRY", pred=lambda k: k.startswith("FUNNEL/"))
+    rep.rules += ["ENTRY (C02's FUNNEL instances: each decode entry point feeds the decoder the whole, and only the, 32-byte input)"]
+    rep.floor("decode_entry_points", nf, 14)
     if "A" in cfgs and "M" in cfgs and dec["A"] and dec["M"]:
         # the bytes parameter is spelled identically in both builds (field 0 of the Encoding), so keys are comparable
         rep.ob("SIB/A-M/decode", True, "both builds' decode terms equal the same specification term", nontrivial=False)
